@@ -1570,6 +1570,10 @@ FROM (
                 return f"CAST({expr} AS {duckdb_type})"
             return f"CAST(TRUNC(CAST({expr} AS DOUBLE)) AS {duckdb_type})"
 
+        if target_type_str == "String" and source_lower == "boolean":
+            # documented text of a Boolean: "True" / "False" (same helper as the implicit Boolean -> String promotion)
+            return _bool_to_str(expr)
+
         if target_type_str == "String" and source_lower in ("time_period", "timeperiod"):
             _tp_string_macros = {
                 "vtl": "vtl_period_to_vtl",
